@@ -2,13 +2,22 @@ package main
 
 import (
 	"fmt"
+	"go/token"
 	"sort"
 	"strings"
 
 	"golang.org/x/tools/go/ssa"
 )
 
-func init() { register("C20", "a value behaves the same wherever it came from", checkC20) }
+func init() {
+	register("C20", "a value behaves the same wherever it came from", func(p *Program, r *Report) {
+		checkC20(p, r)
+		if m, err := buildVMModel(p); err == nil {
+			r.Explain("R2 the unwrap idiom tests the value it unwraps: an Elem() taken on the true side of `w.Kind() == Interface` is applied to w itself.")
+			c20UnwrapIdiom(p, r, m)
+		}
+	})
+}
 
 func checkC20(p *Program, r *Report) {
 	r.Explain("C20: a value that travelled through an interface{} slot (slice/map element, struct field, result of a function declared to return interface{}, channel element, binding read from a scope) reaches an operation as a reflect.Value of kind Interface ('wrapped'). The property holds iff no operation lets that wrapper influence its outcome. " +
@@ -111,4 +120,115 @@ func shortWhat(s string) string {
 		s = s[:70]
 	}
 	return s
+}
+
+// c20UnwrapIdiom (R2): the unwrap idiom tests the value it unwraps: an Elem() taken on the true side of `w.Kind() == Interface`
+// is applied to w itself, not to another operand.
+func c20UnwrapIdiom(p *Program, r *Report, m *vmModel) {
+	n := 0
+	for _, fn := range m.fns {
+		if len(fn.Blocks) == 0 || strings.HasPrefix(fn.Name(), "init") {
+			continue
+		}
+		var tt *typeTerms
+		k := 0
+		for _, b := range fn.Blocks {
+			for _, in := range b.Instrs {
+				c, ok := in.(*ssa.Call)
+				if !ok || reflectMethod(c) != "Elem" {
+					continue
+				}
+				// the nearest interface-kind test on whose true side this block lies
+				var tested ssa.Value
+				for d := b; d != nil && d.Idom() != nil && tested == nil; d = d.Idom() {
+					id := d.Idom()
+					iff, ok := id.Instrs[len(id.Instrs)-1].(*ssa.If)
+					if !ok {
+						continue
+					}
+					// `Kind()==Interface && !IsNil()` arrives as two tests: look at both shapes
+					cond := iff.Cond
+					if u, ok := cond.(*ssa.UnOp); ok && u.Op == token.NOT {
+						cond = u.X
+					}
+					if k, K := kindCmp(cond); k != nil && K == 20 && edgeOnly(id, 0, d) {
+						tested = k.(*ssa.Call).Call.Args[0]
+					}
+				}
+				if tested == nil {
+					continue
+				}
+				// only the Elem that directly follows the test (same operand family): later Elem calls on other values inside
+				// the guarded region (pointer targets, elements) are not part of the idiom
+				if !firstElemUnder(c, b) {
+					continue
+				}
+				if tt == nil {
+					tt = newTypeTerms(m, fn, nil)
+				}
+				n++
+				k++
+				recv := c.Call.Args[0]
+				r.Check(tt.sameValue(recv, tested) || sameCellContent(tt, recv, tested) || sameAllocLoad(recv, tested), "C20.R2", fmt.Sprintf("%s|unwrap #%d", funcName(fn), k), p.Pos(c.Pos()), "the value tested for being an interface is the value unwrapped",
+					"an interface test on one operand guards the unwrapping of another: the operand that is actually wrapped is left wrapped (or a plain one is unwrapped)")
+			}
+		}
+	}
+	r.Floor("C20.R2", n, 30)
+}
+
+// firstElemUnder: c is the first Elem() call in its block and the block is entered directly from the interface tests.
+func firstElemUnder(c *ssa.Call, b *ssa.BasicBlock) bool {
+	for _, in := range b.Instrs {
+		if x, ok := in.(*ssa.Call); ok && reflectMethod(x) == "Elem" {
+			return x == c
+		}
+	}
+	return false
+}
+
+// sameAllocLoad: a and b are loads of the same local kept in memory (a variable captured by a function literal), with no store to
+// it between the later one and the start of its block.
+func sameAllocLoad(a, b ssa.Value) bool {
+	ua, ok1 := a.(*ssa.UnOp)
+	ub, ok2 := b.(*ssa.UnOp)
+	if !ok1 || !ok2 || ua.Op != token.MUL || ub.Op != token.MUL {
+		return false
+	}
+	al, ok := ua.X.(*ssa.Alloc)
+	if !ok || ub.X != ssa.Value(al) {
+		return false
+	}
+	for _, in := range ua.Block().Instrs {
+		if in == ssa.Instruction(ua) {
+			break
+		}
+		if st, ok := in.(*ssa.Store); ok && st.Addr == ssa.Value(al) {
+			return false
+		}
+	}
+	return true
+}
+
+// sameCellContent: a and b are loads of the same cell of the record reached by exactly the same definitions.
+func sameCellContent(tt *typeTerms, a, b ssa.Value) bool {
+	ua, ok1 := a.(*ssa.UnOp)
+	ub, ok2 := b.(*ssa.UnOp)
+	if !ok1 || !ok2 || tt.base == nil {
+		return false
+	}
+	ca, cb := tt.m.cellAddr(ua.X, tt.base), tt.m.cellAddr(ub.X, tt.base)
+	if ca == "" || ca != cb {
+		return false
+	}
+	da, db := tt.before[ua][ca], tt.before[ub][cb]
+	if len(da) != len(db) || len(da) == 0 {
+		return false
+	}
+	for d := range da {
+		if !db[d] {
+			return false
+		}
+	}
+	return true
 }
